@@ -12,7 +12,9 @@ from . import _weighting
 from ._algorithm_setup import _Algorithm, _class_wrapper
 from ._banded_utils import _shift_rows, diff_penalty_diagonals
 from ._validation import _check_lam, _check_optional_array, _check_scalar_variable
-from .utils import _mollifier_kernel, pad_edges, padded_convolve, relative_difference
+from .utils import (
+    _mollifier_kernel, _sort_array, pad_edges, padded_convolve, relative_difference
+)
 
 
 class _Whittaker(_Algorithm):
@@ -166,6 +168,9 @@ class _Whittaker(_Algorithm):
             )
             baseline = self._polynomial.vandermonde @ (pseudo_inverse @ data)
             weights = _weighting._asls(data, baseline, p)
+            # have to invert the weight ordering to match the original input y ordering
+            # since it will be sorted within _setup_whittaker
+            weights = _sort_array(weights, self._inverted_order)
 
         y, weight_array, whittaker_system = self._setup_whittaker(data, lam, diff_order, weights)
         lambda_1 = _check_lam(lam_1)
